@@ -8,7 +8,9 @@ FLAGS = ("params", "rng", "inputs", "state", "output")
 
 def run(chk):
     quick = chk.tier == "quick"
-    base = c07.make_jobs(chk, 2 if quick else 8)
+    # every record setting must see the SAME computation graph: recorded graphs differ from run to run in how far the free-running nodes got,
+    # so only generated (deterministic) graphs are used here
+    base = [j for j in c07.make_jobs(chk, 6 if quick else 24) if j["source"] == "generate" and not j["id"].startswith("s")][:2 if quick else 8]
     combos = [dict(zip(FLAGS, b)) for b in itertools.product([False, True], repeat=5)]
     pick = [dict(zip(FLAGS, [True] * 5)), dict(zip(FLAGS, [False] * 5))] + (chk.rnd.sample(combos, 2) if quick else combos)
     jobs = []
